@@ -230,7 +230,7 @@ theorem reachable_step {s s' : State} {e : Event} (h : Reachable s) (hs : step? 
       | some s1 => simp [h1] at h0 ⊢; exact ih s1 h0
   exact this es _ h
 
-theorem pick_step {prio : List Key} {s s' : State} {e : Event} (h : pick prio s = some (e, s')) : step? s e = some s' := by
+theorem pick_step {first : List Event} {prio : List Key} {s s' : State} {e : Event} (h : pick first prio s = some (e, s')) : step? s e = some s' := by
   unfold pick at h
   obtain ⟨e', _, he⟩ := List.exists_of_findSome?_eq_some h
   cases hs : step? s e' with
@@ -238,12 +238,13 @@ theorem pick_step {prio : List Key} {s s' : State} {e : Event} (h : pick prio s 
   | some s1 => simp [hs] at he; obtain ⟨rfl, rfl⟩ := he; exact hs
 
 /-- the scheduler of the correspondence driver only moves inside the reachable states -/
-theorem settle_reachable (prio : List Key) (n : Nat) {s : State} (h : Reachable s) : Reachable (settle prio n s).1 := by
+theorem settle_reachable (first : List Event) (prio : List Key) (n : Nat) {s : State} (h : Reachable s) :
+    Reachable (settle first prio n s).1 := by
   induction n generalizing s with
   | zero => exact h
   | succ n ih =>
     simp only [settle]
-    cases hp : pick prio s with
+    cases hp : pick first prio s with
     | none => exact h
     | some p => obtain ⟨e, s'⟩ := p; exact ih (reachable_step h (pick_step hp))
 
@@ -266,7 +267,7 @@ macro "leaves" h:ident : tactic =>
 
 /-- unfold whichever step function `h` is about -/
 macro "unfold_step" h:ident : tactic =>
-  `(tactic| (simp only [step?] at $h:ident; try (first | unfold stepPump at $h:ident | unfold stepRecvOpenStart at $h:ident | unfold stepDiscard at $h:ident | unfold stepCloseData at $h:ident | unfold stepCloseFrame at $h:ident | unfold stepJoinedA at $h:ident | unfold stepPush at $h:ident | unfold stepPop at $h:ident | unfold stepSendOpen at $h:ident | unfold stepJoinedC at $h:ident | unfold stepDoFlush at $h:ident | unfold stepAppOpen at $h:ident | unfold stepAppRead at $h:ident | unfold stepReadStep at $h:ident | unfold stepAppWrite at $h:ident | unfold stepWriteStep at $h:ident | unfold stepAppFlush at $h:ident | unfold stepAppDrop at $h:ident)))
+  `(tactic| (simp only [step?] at $h:ident; try (first | unfold stepPump at $h:ident | unfold stepRecvOpenStart at $h:ident | unfold stepDiscard at $h:ident | unfold stepCloseData at $h:ident | unfold stepCloseFrame at $h:ident | unfold stepJoinedA at $h:ident | unfold stepPush at $h:ident | unfold stepPop at $h:ident | unfold stepSendOpen at $h:ident | unfold stepJoinedC at $h:ident | unfold stepDoFlush at $h:ident | unfold stepAppOpen at $h:ident | unfold stepAppRead at $h:ident | unfold stepReadStep at $h:ident | unfold stepAppWrite at $h:ident | unfold stepWriteStep at $h:ident | unfold stepAppFlush at $h:ident | unfold stepAppDrop at $h:ident | unfold stepWTake at $h:ident | unfold stepWDo at $h:ident | unfold stepWBlock at $h:ident | unfold stepFlushStep at $h:ident | unfold stepCancelWrite at $h:ident | unfold stepCancelFlush at $h:ident)))
 
 /-- the configuration and the stream-id partition never change -/
 theorem step?_static {s s' : State} {e : Event} (h : step? s e = some s') :
